@@ -27,7 +27,7 @@ class create_glyph:
     returns = Obj(name=Str)
     ensures = {"named-by-the-path": lambda path_in_font_space, result: result.name == ufn("created_glyph_name", "str", path_in_font_space)}
     native = False
-    note = "creates a new ufo glyph drawn from path_in_font_space and returns it (checked natively by the glyph harness)"
+    note = "creates a new ufo glyph drawn from path_in_font_space and returns it (exercised by the end-to-end picture checks of the bounded tier)"
 
 
 def _dprime(paint, S):
